@@ -60,6 +60,8 @@ class Gamma:
             return np.int64(k)
         if nk == "tuple":
             return (int(k), "a")
+        if nk == "mixed":  # numbers and strings together (only for operations that never compare labels)
+            return int(k) if k % 2 == 0 else f"n{k}"
         raise ValueError(nk)
 
     def inv_node(self, lab):
@@ -79,6 +81,11 @@ class Gamma:
             elif nk == "tuple":
                 if isinstance(lab, tuple) and len(lab) == 2 and lab[1] == "a":
                     return int(lab[0])
+            elif nk == "mixed":
+                if isinstance(lab, str) and lab[:1] == "n" and int(lab[1:]) % 2 == 1:
+                    return int(lab[1:])
+                if isinstance(lab, (int, np.integer)) and not isinstance(lab, bool) and int(lab) % 2 == 0:
+                    return int(lab)
         except (ValueError, TypeError):
             pass
         return UNKNOWN
